@@ -64,6 +64,10 @@ type procResult struct {
 }
 
 func (r *rapidSim) runProc(idx int, seed uint64, checks int, filter string, failfile string) procResult {
+	return r.runProcEnv(idx, seed, checks, filter, failfile, nil)
+}
+
+func (r *rapidSim) runProcEnv(idx int, seed uint64, checks int, filter string, failfile string, extraEnv []string) procResult {
 	wd := filepath.Join(r.s.Dir, "w", fmt.Sprintf("p%d-%d", idx, time.Now().UnixNano()))
 	os.MkdirAll(wd, 0o755)
 	statsFile := filepath.Join(wd, "stats.json")
@@ -78,6 +82,7 @@ func (r *rapidSim) runProc(idx int, seed uint64, checks int, filter string, fail
 	cmd := exec.CommandContext(ctx, r.bin, args...)
 	cmd.Dir = wd
 	cmd.Env = append(os.Environ(), "VERIF_STATS_OUT="+statsFile, "VERIF_FILTER="+filter, "GOMAXPROCS=2")
+	cmd.Env = append(cmd.Env, extraEnv...)
 	out, err := cmd.CombinedOutput()
 	res := procResult{}
 	if raw, e := os.ReadFile(statsFile); e == nil {
